@@ -111,7 +111,7 @@ func TestVerifC05Upload(t *testing.T) {
 			c05UploadCase(r, base, rnd, i)
 		}
 	})
-	res.Require("damage:next-self", "damage:cycle-all", "zero-valued-cycle", "fault-delivered", "healthy-week-checked", "layout:local-is-file")
+	res.Require("damage:next-self", "damage:cycle-all", "zero-valued-cycle", "fault-delivered", "healthy-week-checked", "layout:local-is-file", "layout:old-lock-is-nonempty-dir")
 	if err := res.Write(); err != nil {
 		t.Fatal(err)
 	}
@@ -190,6 +190,19 @@ func c05UploadCase(r *verifrt.Result, base string, rnd *verifrt.Rand, i int) {
 		layout = "local-is-file"
 		os.RemoveAll(td.dir.LocalDir())
 		os.WriteFile(td.dir.LocalDir(), []byte("x"), 0o666)
+	case 4, 5:
+		// the week's upload lock is there already, left years ago, and cannot be
+		// removed (a directory with something in it) or is an ordinary old file
+		lock := filepath.Join(td.dir.UploadDir(), end.Format("2006-01-02")+".json.lock")
+		layout = "old-lock-file"
+		if rnd.Intn(2) == 0 {
+			layout = "old-lock-is-nonempty-dir"
+			os.MkdirAll(filepath.Join(lock, "x"), 0o777)
+		} else {
+			os.WriteFile(lock, nil, 0o666)
+		}
+		old := time.Date(2000, 1, 2, 3, 4, 5, 0, time.UTC)
+		os.Chtimes(lock, old, old)
 	}
 	r.Hit("layout:" + layout)
 	modeOn := rnd.Bool()
